@@ -510,6 +510,31 @@ def _stubgap_spec(rng):
                                      "stubWidth": rng.choice([1, 1, 0, 0.5, 2])}}
 
 
+def _sparse_spec(rng):
+    """two- or three-layer layouts (algorithm simple, wide bounds, low density) whose items
+    already stand apart almost everywhere: consecutive items are placed edge to edge plus a
+    gap that is usually above the label spacing and sometimes between the line spacing (2)
+    and the label spacing, so that a stub next to a label, or two stubs, sit closer than a
+    label pair may.  Large label spacings (4..12) so that the difference exceeds rounding."""
+    ns = rng.choice([4, 6, 10, 12, 5.5])
+    sw = rng.choice([1, 1, 2, 0.5])
+    n = rng.randint(3, 12)
+    widths = [rng.choice([10, 20, 30, 50, 15.5]) for _ in range(n)]
+    pos = [rng.choice([30, 45.5, 60])]
+    for i in range(1, n):
+        g = rng.choice([ns + 1, ns + 4, ns + 20, 2 * ns, ns]) if rng.random() < 0.7 else rng.choice([2, 2.5, 3, ns - 1, ns - 0.5, 1, 0])
+        # distance such that the STUB of one of the two and the other label are g apart edge to edge
+        a, b = rng.choice([(sw, widths[i]), (widths[i - 1], sw), (widths[i - 1], widths[i]), (sw, sw)])
+        pos.append(pos[-1] + a / 2.0 + b / 2.0 + g)
+    total = sum(widths) + ns * (n - 1)
+    hi = pos[-1] + widths[-1] / 2.0 + rng.choice([0, 5, 60])
+    layers = rng.choice([2, 2, 3])
+    dens = min(1.0, total / (hi * (layers - 0.5)))
+    return {"nodes": [[p_, w_] for p_, w_ in zip(pos, widths)],
+            "opts": {"minPos": rng.choice([0, 0, None]), "maxPos": hi, "algorithm": rng.choice(["simple", "simple", "overlap"]),
+                     "density": dens, "nodeSpacing": ns, "stubWidth": sw}}
+
+
 def _farwall_spec(rng):
     """targets 1e9 .. 1e12 beyond a bound: the 1e10-weight walls give way by
     (distance)/1e10, i.e. by 0.1 .. 100 units (known finding soft-wall-slack)"""
@@ -599,6 +624,8 @@ def _gen_specs(rng, tier):
         yield "farwall", _farwall_spec(rng)
     for _ in range(800 if big else 60):
         yield "stubgap", _stubgap_spec(rng)
+    for _ in range(3000 if big else 250):
+        yield "sparse", _sparse_spec(rng)
     # single items, and a lone item against each wall
     for p, w, o in [(5, 10, {}), (-50, 10, {}), (5, 10, {"maxPos": 8}), (100, 10, {"maxPos": 50}),
                     (2.5, 1, {"minPos": None}), (0.5, 1, {"minPos": None}), (1.5, 1, {"minPos": None}),
